@@ -179,8 +179,8 @@ func drawC11Spec(t *rapid.T, label string, interop bool) c11Spec {
 
 func TestC11(t *testing.T) {
 	rec := ev.Get("C11")
-	rec.Rule("ConfigSpecs: id 0..255, KEM ids, public keys of 0..200 bytes (valid X25519 points for interop cases), 0..8 cipher suites incl. unknown ids, public names of 1..255 bytes (and invalid lengths 0, 256..300), lists of 0..6 configs. Oracles: harness decoder written from draft section 4 reads Bytes() and agrees field by field; Spec()/ParseConfigList return the generated specs in order; harness-encoded configs parse to the same fields (both directions); crypto/tls client+server accept interop configs (outer SNI = public name, config id named, ECHAccepted on both sides); every strict prefix of a valid list is rejected; trailing bytes beyond declared lengths do not change the result; length fields +-1 never panic; one length field of a valid config changed by -4..+200: no panic and the result (acceptance and fields) is independent of every byte beyond the config's declared length, stand-alone and inside a list. distinct = encoding hash; non-trivial = name length not in {11,18} or id != 1 or non-default suites")
-	rec.Mandatory("suites_cut_mid_suite", "name_len1", "name_len239", "name_len240", "name_len255", "list0", "list_ge3", "interop", "single_suite_aead1", "single_suite_aead2", "single_suite_aead3", "invalid_name_len", "prefix_rejected", "newconfig", "lenfield:contents_length", "lenfield:public_key_length", "lenfield:cipher_suites_length", "lenfield:public_name_length", "lenfield:extensions_length")
+	rec.Rule("ConfigSpecs: id 0..255, KEM ids, public keys of 0..200 bytes (valid X25519 points for interop cases), 0..8 cipher suites incl. unknown ids, public names of 1..255 bytes (and invalid lengths 0, 256..300), lists of 0..6 configs, and lists sized around the 65535-byte limit of the length prefix (largest that fits / one more / many more). Oracles: harness decoder written from draft section 4 reads Bytes() and agrees field by field; Spec()/ParseConfigList return the generated specs in order; harness-encoded configs parse to the same fields (both directions); crypto/tls client+server accept interop configs (outer SNI = public name, config id named, ECHAccepted on both sides); every strict prefix of a valid list is rejected; trailing bytes beyond declared lengths do not change the result; length fields +-1 never panic; one length field of a valid config changed by -4..+200: no panic and the result (acceptance and fields) is independent of every byte beyond the config's declared length, stand-alone and inside a list. distinct = encoding hash; non-trivial = name length not in {11,18} or id != 1 or non-default suites")
+	rec.Mandatory("suites_cut_mid_suite", "name_len1", "name_len239", "name_len240", "name_len255", "list0", "list_ge3", "interop", "single_suite_aead1", "single_suite_aead2", "single_suite_aead3", "invalid_name_len", "prefix_rejected", "newconfig", "lenfield:contents_length", "lenfield:public_key_length", "lenfield:cipher_suites_length", "lenfield:public_name_length", "lenfield:extensions_length", "list_around_64k")
 	rapid.Check(t, func(t *rapid.T) {
 		interop := rapid.IntRange(0, 9).Draw(t, "interop") == 0
 		n := rapid.IntRange(0, 6).Draw(t, "nconfigs")
@@ -420,6 +420,37 @@ func TestC11(t *testing.T) {
 				}
 				cl = append(cl, "lenfield:"+fld.name)
 			}
+		}
+		// (6) lists around the 65535-byte limit of the length prefix: the largest list that
+		// fits round-trips; one config more must be refused, never emitted with a wrapped length
+		if rapid.IntRange(0, 39).Draw(t, "huge_list") == 0 {
+			nameLen := rapid.IntRange(200, 255).Draw(t, "huge_name_len")
+			one, err := ech.ConfigSpec{Version: 0xfe0d, ID: 9, KEM: 0x20, PublicKey: make([]byte, 32), CipherSuites: []ech.CipherSuite{{KDF: 1, AEAD: 1}}, PublicName: bytes.Repeat([]byte("n"), nameLen)}.Bytes()
+			if err != nil {
+				ev.Violation(t, "C11", map[string]any{"name_len": nameLen}, "Bytes failed for a valid spec: %v", err)
+			}
+			fit := 65535 / len(one)
+			for _, n := range []int{fit, fit + 1, fit + 1 + rapid.IntRange(1, 400).Draw(t, "huge_more")} {
+				many := make([]ech.Config, n)
+				for i := range many {
+					many[i] = one
+				}
+				var l []byte
+				e := guard(func() error { var e error; l, e = ech.ConfigList(many); return e })
+				if isPanic(e) {
+					ev.Violation(t, "C11", map[string]any{"configs": n, "config_len": len(one)}, "ConfigList panicked: %v", e)
+				}
+				if n <= fit && e != nil {
+					ev.Violation(t, "C11", map[string]any{"configs": n, "config_len": len(one)}, "ConfigList refused a list of %d bytes: %v", n*len(one), e)
+				}
+				if e == nil {
+					ps, perr := ech.ParseConfigList(l)
+					if len(l) != 2+n*len(one) || int(l[0])<<8|int(l[1]) != n*len(one) || perr != nil || len(ps) != n {
+						ev.Violation(t, "C11", map[string]any{"configs": n, "config_len": len(one), "list_len": len(l), "prefix": hx(l[:min(len(l), 2)])}, "ConfigList returned a malformed list for %d configs of %d bytes (%d bytes of payload do not fit a 16-bit length): declared %d, parse gives %d configs, err=%v", n, len(one), n*len(one), int(l[0])<<8|int(l[1]), len(ps), perr)
+					}
+				}
+			}
+			cl = append(cl, "list_around_64k")
 		}
 		// a cipher_suites vector cut in the middle of a suite (all enclosing lengths consistent)
 		if rapid.IntRange(0, 3).Draw(t, "odd_suites") == 0 {
